@@ -360,9 +360,7 @@ class Opt:
         return a
 
     def query_args(self):
-        if self.query is None:
-            return []
-        return [self.query[1] if self.query[0] == 'acct' else '@' + self.query[1]]
+        return [(t[1] if t[0] == 'acct' else '@' + t[1]) for t in (self.query or [])]
 
     def bal_args(self):
         a = self.filter_args()
@@ -376,7 +374,7 @@ class Opt:
 
     def sx(self):
         kp, kd, kt = self.keep()
-        q = 'none' if self.query is None else [self.query[0], hx(self.query[1])]
+        q = 'none' if not self.query else [[t[0], hx(t[1])] for t in self.query]
         return ['opts', self.real, self.state, q, self.basis, kp, kd, kt, self.flat,
                 'none' if self.depth is None else self.depth, self.empty]
 
@@ -394,7 +392,8 @@ def gen_opts(rng):
     if rng.random() < 0.4:
         o.state = rng.choice(['cleared', 'uncleared', 'pending'])
     if rng.random() < 0.35:
-        o.query = ('acct', rng.choice(QUERIES)) if rng.random() < 0.7 else ('payee', rng.choice(PQUERIES))
+        o.query = [('acct', rng.choice(QUERIES)) if rng.random() < 0.7 else ('payee', rng.choice(PQUERIES))
+                   for _ in range(rng.choice([1, 1, 1, 2, 3]))]
     if rng.random() < 0.4:
         o.basis = True
     if rng.random() < 0.5:
@@ -791,7 +790,7 @@ def one_journal(ctx, res, j, opts, tag):
         nsel = len(reg)
         res.count('postings-selected:%s' % ('0' if nsel == 0 else '1-3' if nsel <= 3 else '4-10' if nsel <= 10 else '11+'))
         res.count('bal-rows:%s' % ('0' if not ibal else '1' if len(ibal) == 1 else '2-5' if len(ibal) <= 5 else '6+'))
-        for name, on in (('real', o.real), ('state', o.state != 'any'), ('query', o.query is not None), ('basis', o.basis),
+        for name, on in (('real', o.real), ('state', o.state != 'any'), ('query', bool(o.query)), ('basis', o.basis),
                          ('lots', bool(o.lots)), ('flat', o.flat), ('depth', o.depth is not None), ('empty', o.empty)):
             if on:
                 res.count('opt:' + name)
@@ -815,7 +814,7 @@ def run(ctx, n_override=None):
                 '--pending, -B, --lots/--lot-prices/--lot-dates/--lot-notes, --flat, --depth n, --empty, an account or @payee term; '
                 'non-trivial = at least two selected postings and a multi-commodity total or nested displayed accounts; '
                 'distinct by (option set, journal text)')
-    nj = n_override or ctx.scale(260, 3000)
+    nj = n_override or ctx.scale(400, 2500)
     per = 4
     for ji in range(nj):
         directed = rng.random() < 0.15
